@@ -25,7 +25,7 @@ def programs(tier, rng):
     total = len(p31) + len(p22) + len(p32)
     idx = list(range(len(p32)))
     rng.shuffle(idx)
-    take = 3000 if tier == 'quick' else 80000
+    take = 3000 if tier == 'quick' else 20000
     out = [('3x1-%d' % k, p) for k, p in enumerate(p31)] + [('2x2-%d' % k, p) for k, p in enumerate(p22)]
     out += [('3x2-%d' % k, p32[k]) for k in sorted(idx[:take])]
     if tier != 'quick':
@@ -33,7 +33,7 @@ def programs(tier, rng):
         total += len(p41)
         idx = list(range(len(p41)))
         rng.shuffle(idx)
-        out += [('4x1-%d' % k, p41[k]) for k in sorted(idx[:80000])]
+        out += [('4x1-%d' % k, p41[k]) for k in sorted(idx[:20000])]
     return out, total
 
 
@@ -44,7 +44,7 @@ def chain_programs(tier, rng, n_nested=2000, n_other=1000):
     total = len(chain)
     items = [('c4-%d' % k, p) for k, p in enumerate(chain)]
     if tier != 'quick':
-        return items, total
+        n_nested, n_other = 6 * n_nested, 8 * n_other
     nested = [it for it in items if 'cc' in ''.join(it[1]['kind'])]
     other = [it for it in items if 'cc' not in ''.join(it[1]['kind'])]
     rng.shuffle(nested)
